@@ -337,6 +337,10 @@ def check_full(rng, rec):
     needs_term = bool(pc) and not year and not parallel
     s += rng.choice([". Further text follows.", "; the rest.", "."]) if needs_term else \
         rng.choice([". Further text follows.", "; the rest.", ".", "", ", and so on."])
+    if s.endswith(".") and rng.random() < 0.25:
+        # the same case referred to again by name and pin cite later in the document (a reference
+        # citation; it must not disturb the components of the written citations)
+        s += f" The court in {rng.choice([D, P.split()[-1]])} at {page + rng.randint(1, 9)} agreed."
     case = dict(text=s, form="full", parallel_reporter=(rep2 if parallel else None))
     cs = extract(s, rec, case)
     if cs is None:
